@@ -1,4 +1,5 @@
 import ZV.Model.C02
+import ZV.Generated.C02
 /-!
   Models of JSON sub-views of a parsed certificate that index, slice or look up tables (x509/json.go, x509/names.go,
   x509/x509.go, x509/extensions.go):
@@ -128,24 +129,20 @@ def keyUsageView (k : Nat) : List Bool × Nat :=
 
 /-! ## algorithm names -/
 
-def keyAlgorithmNames : List String := ["unknown_algorithm", "RSA", "DSA", "ECDSA", "Ed25519", "X25519"]
-def totalKeyAlgorithms : Int := 6
+/-! The tables `keyAlgorithmNames`, `total_key_algorithms`, `algoName` and the OIDs of the `JsonifyExtensions`
+    chain are T1 facts: `ZV.C02.Gen.*` in `ZV/Generated/C02.lean`, regenerated from the zcrypto tree on every check. -/
 
 /-- `PublicKeyAlgorithm.String` (x509/names.go): `keyAlgorithmNames[p]` after clamping -/
 def keyAlgName (p : Int) : Res String :=
-  let p := if p ≥ totalKeyAlgorithms ∨ p < 0 then 0 else p
-  at? keyAlgorithmNames p.toNat
-
-def algoName : List String := ["", "MD2-RSA", "MD5-RSA", "SHA1-RSA", "SHA256-RSA", "SHA384-RSA", "SHA512-RSA",
-  "DSA-SHA1", "DSA-SHA256", "ECDSA-SHA1", "ECDSA-SHA256", "ECDSA-SHA384", "ECDSA-SHA512",
-  "SHA256-RSAPSS", "SHA384-RSAPSS", "SHA512-RSAPSS", "Ed25519"]
+  let p := if p ≥ (Gen.totalKeyAlgorithms : Int) ∨ p < 0 then 0 else p
+  at? Gen.keyAlgorithmNames p.toNat
 
 /-- `strconv.Itoa` -/
 def itoa (i : Int) : String := if i < 0 then "-" ++ toString i.natAbs else toString i.natAbs
 
 /-- `SignatureAlgorithm.String` -/
 def sigAlgString (a : Int) : Res String :=
-  if 0 < a ∧ a < algoName.length then at? algoName a.toNat else .ok (itoa a)
+  if 0 < a ∧ a < Gen.algoName.length then at? Gen.algoName a.toNat else .ok (itoa a)
 
 /-- the `name` of `jsonifySignatureAlgorithm` -/
 def sigAlgJSONName (a : Int) : Res String :=
@@ -153,11 +150,8 @@ def sigAlgJSONName (a : Int) : Res String :=
 
 /-! ## extension dispatch of `JsonifyExtensions` -/
 
-/-- the OIDs `JsonifyExtensions` knows, in the order of its `else if` chain -/
-def knownExtOids : List (List Nat) := [
-  [2, 5, 29, 15], [2, 5, 29, 19], [2, 5, 29, 17], [2, 5, 29, 18], [2, 5, 29, 30], [2, 5, 29, 31], [2, 5, 29, 35],
-  [2, 5, 29, 37], [2, 5, 29, 32], [1, 3, 6, 1, 5, 5, 7, 1, 1], [2, 5, 29, 14], [1, 3, 6, 1, 4, 1, 11129, 2, 4, 2],
-  [1, 3, 6, 1, 4, 1, 11129, 2, 4, 3], [2, 23, 140, 1, 31], [2, 23, 140, 3, 1], [1, 3, 6, 1, 5, 5, 7, 1, 3]]
+/-- the OIDs `JsonifyExtensions` knows, in the order of its `else if` chain (generated) -/
+abbrev knownExtOids : List (List Nat) := Gen.knownExtOids
 
 /-- the loop of `JsonifyExtensions` as far as the split goes: for every extension, the position of its OID in the
     chain (the view it fills) or `none` (appended to the unknown list). Result: the set views (positions, in
